@@ -4,7 +4,7 @@
    the surface syntax of an abstract program under a style number, and
    Meaning.meaning what the program denotes, computed without gmars. *)
 From GM Require Import Base Text Token Lexer Scanner ExprSpec ExprEval Parser Compile Sim Prog Meaning Render AsmSpec
-     C03Proof C03Lexer C06Proof C09Proof C09GenCompile C09GenLex C03Equ C03Parse C03Compile C03Labels.
+     C03Proof C03Lexer C06Proof C09Proof C09GenCompile C09GenLex C03Equ C03Parse C03Compile C03Labels C03EquCompile C03EquLabels.
 From Coq Require Import Lia.
 Open Scope Z_scope.
 
@@ -219,7 +219,114 @@ Proof.
 Qed.
 End C03Example.
 
-(* missing from C03_full_statement: EQU lines (substitution is proved token by token above, and its independence
-   of the order of definitions in C14), FOR blocks (C08), ;assert lines (C07).  These, and the composition of all of them, are decided on every run by the
+(* proved, end to end, WITH EQU DEFINITIONS: C03_full_statement for programs of labelled instructions, EQU definitions
+   (anywhere among the lines, used before or after their definition, referring to each other to any depth) and an ORG
+   line, in every layout in which each line is followed by at least one line end.
+
+   The reference reads an operand by substituting names pass by pass - an EQU name by its text as written, a label by
+   its offset, a predefined name by its value - and evaluates the resulting token list (Meaning.value_at); textual
+   substitution changes the tree (`gap equ 3+1`, `gap*2` is `3+1*2`, not 8).  The compiler resolves the EQU values
+   among themselves first (whatever the order), substitutes with that table and evaluates with expr.go's evaluator.
+   C03Equ shows that both arrive at the same token list, C07Inverse that both evaluators give it the same value,
+   C03EquCompile.graph_ranked that the cycle check lets definitions pass that refer to each other along a rank
+   (`ranked`: no definition refers to itself, directly or through others).  `bodies_known`: every name in an EQU
+   body is predefined, an EQU name or a label (the parser refuses a text that mentions an undefined name, used or not). *)
+Theorem C03_programs_with_equ_partial :
+  forall cfg spell org (its : list Prog.item) es lead nm au code start rkN lexemes tail,
+    validate cfg = true ->
+    spell_ok spell (flat_map il_labels (instrs its) ++ map fst (equs its)) ->
+    renders_doc2 spell org its es -> shape2_ok es -> Forall (fun xk => (1 <= snd xk)%nat) es ->
+    ranked spell (equs its) rkN ->
+    bodies_known cfg its ->
+    meaning (mconf_of cfg) (mkProg its org None nm au []) = MOk code start ->
+    Forall (fun x => is_space_a x = true) tail -> tail <> [] -> items_ok lexemes tail ->
+    flat_map item_toks lexemes ++ newlines tail ++ [tEOF] = ldoc_toks lead es ->
+    compile_warrior cfg (flat_map item_text lexemes ++ tail) = COk code start (dmeta (mkPM [] [] []) es).
+Proof. intros cfg spell org its es lead nm au code start rkN lexemes tail. exact (program2_text spell cfg org its es lead nm au code start rkN lexemes tail). Qed.
+Print Assumptions C03_programs_with_equ_partial.
+
+Theorem C03_programs_with_equ_tokens_partial :
+  forall cfg spell org (its : list Prog.item) es lead nm au code start inp rkN,
+    validate cfg = true ->
+    spell_ok spell (flat_map il_labels (instrs its) ++ map fst (equs its)) ->
+    renders_doc2 spell org its es -> shape2_ok es -> Forall (fun xk => (1 <= snd xk)%nat) es ->
+    ranked spell (equs its) rkN ->
+    bodies_known cfg its ->
+    meaning (mconf_of cfg) (mkProg its org None nm au []) = MOk code start ->
+    lex_ascii inp = Some (ldoc_toks lead es) ->
+    compile_warrior cfg inp = COk code start (dmeta (mkPM [] [] []) es).
+Proof. intros cfg spell org its es lead nm au code start inp rkN. exact (program2_tokens spell cfg org its es lead nm au code start inp rkN). Qed.
+Print Assumptions C03_programs_with_equ_tokens_partial.
+
+(* the hypotheses are satisfiable: `step` is used before `gap`, on which it depends, is defined; substitution is textual
+   (step = 3+1*2 = 5); ORG uses a label *)
+Module C03EquExample.
+Definition spell (id : N) : text :=
+  if (id =? 1)%N then s2t "CORESIZE" else if (id =? 2)%N then s2t "MAXLENGTH" else if (id =? 3)%N then s2t "MAXPROCESSES"
+  else if (id =? 4)%N then s2t "MINDISTANCE" else if (id =? 10)%N then s2t "start" else if (id =? 11)%N then s2t "bomb"
+  else if (id =? 20)%N then s2t "step" else s2t "gap".
+Definition e_step : nexpr := NBin OMul (NName 21) (NLit 2).
+Definition e_gap : nexpr := NBin OAdd (NLit 3) (NLit 1).
+Definition e_org : nexpr := NBin OSub (NName 11) (NLit 1).
+Definition its : list Prog.item :=
+  [ IEqu 20 e_step; IEqu 21 e_gap;
+    IInstr (mkIL [10%N] MOV None (mkOp None (NName 11)) (Some (mkOp (Some B_INDIRECT) (NName 20))));
+    IInstr (mkIL [] ADD None (mkOp (Some IMMEDIATE) (NName 21)) (Some (mkOp None (NName 10))));
+    IInstr (mkIL [11%N] DAT None (mkOp (Some IMMEDIATE) (NLit 0)) (Some (mkOp (Some IMMEDIATE) (NBin OSub (NName 20) (NLit 1))))) ].
+Definition es : list (lelem * nat) :=
+  [ (LEqu [LName (s2t "step")] (s2t "equ") (etoks spell e_step) None, 1%nat);
+    (LEqu [LName (s2t "gap"); LColon] (s2t "EQU") (etoks spell e_gap) (Some (s2t "; the gap")), 1%nat);
+    (LDir (s2t "org") (etoks spell e_org) None, 1%nat);
+    (LInstr (mkTL [LName (s2t "start")] (s2t "mov") None (etoks spell (NName 11)) (Some (Some 64%N, etoks spell (NName 20))) None), 2%nat);
+    (LInstr (mkTL [] (s2t "add") (Some 35%N) (etoks spell (NName 21)) (Some (None, etoks spell (NName 10))) None), 1%nat);
+    (LInstr (mkTL [LName (s2t "bomb")] (s2t "dat") (Some 35%N) (etoks spell (NLit 0))
+                  (Some (Some 35%N, etoks spell (NBin OSub (NName 20) (NLit 1)))) None), 1%nat) ].
+Definition source : text :=
+  s2t "step equ gap*2" ++ [10%N] ++ s2t "gap: EQU 3+1 ; the gap" ++ [10%N] ++ s2t " org bomb-1" ++ [10%N]
+  ++ s2t "start mov bomb, @step" ++ [10; 10]%N ++ s2t " add #gap, start" ++ [10%N] ++ s2t "bomb dat #0, #step-1" ++ [10%N].
+Definition cfg94 := mkCfg 2 8000 8000 80000 8000 8000 100 100.
+Definition code : list instr :=
+  [mkI MOV mI 2 DIRECT 5 B_INDIRECT; mkI ADD mAB 4 IMMEDIATE 7999 DIRECT; mkI DAT mF 0 IMMEDIATE 4 IMMEDIATE].
+Definition rkN (id : N) : nat := if (id =? 20)%N then 1%nat else 0%nat.
+
+Example hypotheses_hold :
+  (validate cfg94 = true) /\ spell_ok spell (flat_map il_labels (instrs its) ++ map fst (equs its)) /\
+  renders_doc2 spell (Some e_org) its es /\ shape2_ok es /\ Forall (fun xk => (1 <= snd xk)%nat) es /\
+  ranked spell (equs its) rkN /\ bodies_known cfg94 its /\
+  (meaning (mconf_of cfg94) (mkProg its (Some e_org) None None None []) = MOk code 1) /\
+  (lex_ascii source = Some (ldoc_toks 0%nat es)).
+Proof.
+  split; [reflexivity|]. split.
+  { constructor.
+    - repeat split; reflexivity.
+    - intros id Hid. cbn in Hid. destruct Hid as [<-|[<-|[<-|[<-|[]]]]]; (split; [reflexivity|]); cbn; intros H;
+        repeat (destruct H as [H|H]; [discriminate H|]); exact H.
+    - intros a b Ha Hb. cbn in Ha, Hb. destruct Ha as [<-|[<-|[<-|[<-|[]]]]], Hb as [<-|[<-|[<-|[<-|[]]]]]; try reflexivity; intros H; discriminate H.
+    - cbn. repeat constructor; cbn; intuition discriminate.
+    - intros id. unfold spell. repeat (destruct (_ =? _)%N); discriminate. }
+  split.
+  { apply R2equ; [reflexivity|reflexivity|repeat constructor; cbn; lia|].
+    apply R2equ; [reflexivity|reflexivity|repeat constructor; cbn; lia|].
+    apply (R2org spell e_org); [reflexivity|repeat constructor; cbn; lia|].
+    apply R2instr; [repeat split; reflexivity|]. apply R2instr; [repeat split; reflexivity|].
+    apply R2instr; [repeat split; try reflexivity; cbn; lia|apply R2nil]. }
+  split; [repeat constructor|]. split; [repeat constructor|]. split.
+  { intros n e Hin x Hx n' e' Hin' Hs. cbn in Hin, Hin'.
+    destruct Hin as [Hin|[Hin|[]]]; inversion Hin; subst n e; cbn in Hx.
+    - destruct Hx as [<-|[]]. destruct Hin' as [Hin'|[Hin'|[]]]; inversion Hin'; subst n' e'; [discriminate Hs|cbn; lia].
+    - destruct Hx. }
+  split.
+  { unfold bodies_known. cbn [equs its]. constructor; [constructor; [right; left; cbn; discriminate|constructor]|constructor; [constructor|constructor]]. }
+  split; vm_compute; reflexivity.
+Qed.
+Example conclusion : compile_warrior cfg94 source = COk code 1 (mkPM [] [] []).
+Proof.
+  destruct hypotheses_hold as [H1 [H2 [H3 [H4 [H5 [H6 [H7 [H8 H9]]]]]]]].
+  exact (C03_programs_with_equ_tokens_partial cfg94 spell (Some e_org) its es 0%nat None None code 1%Z source rkN H1 H2 H3 H4 H5 H6 H7 H8 H9).
+Qed.
+End C03EquExample.
+
+(* missing from C03_full_statement: FOR blocks (C08: the pass driver computes the token-level unrolling), ;assert lines
+   (C07), and EQU definitions together with an END line.  These, and the composition of all of them, are decided on every run by the
    two-stage correspondence: generated abstract programs are rendered under several styles by the extracted
    Render, assembled by gmars and by the extracted model, and compared with the extracted Meaning. *)
